@@ -3333,10 +3333,10 @@ impl LineBuf {
 					if let (Some(ch),None) = (chars.next(),chars.next()) {
 						if ch.is_alphabetic() {
 							let mut buf = [0u8;4];
-							let new = if ch.is_ascii_lowercase() {
-								ch.to_ascii_uppercase().encode_utf8(&mut buf)
+							let new = if ch.is_lowercase() {
+								upper_one(ch).encode_utf8(&mut buf)
 							} else {
-								ch.to_ascii_lowercase().encode_utf8(&mut buf)
+								lower_one(ch).encode_utf8(&mut buf)
 							};
 							self.replace_at_cursor(new);
 						}
@@ -3356,7 +3356,7 @@ impl LineBuf {
 					let Some(gr) = self.grapheme_at(i) else {
 						continue
 					};
-					if gr.len() > 1 || gr.is_empty() {
+					if gr.chars().count() != 1 {
 						continue
 					}
 					let ch = gr.chars().next().unwrap();
@@ -3364,10 +3364,10 @@ impl LineBuf {
 						continue
 					}
 					let mut buf = [0u8;4];
-					let new = if ch.is_ascii_lowercase() {
-						ch.to_ascii_uppercase().encode_utf8(&mut buf)
+					let new = if ch.is_lowercase() {
+						upper_one(ch).encode_utf8(&mut buf)
 					} else {
-						ch.to_ascii_lowercase().encode_utf8(&mut buf)
+						lower_one(ch).encode_utf8(&mut buf)
 					};
 					self.replace_at(i,new);
 				}
@@ -3384,7 +3384,7 @@ impl LineBuf {
 					let Some(gr) = self.grapheme_at(i) else {
 						continue
 					};
-					if gr.len() > 1 || gr.is_empty() {
+					if gr.chars().count() != 1 {
 						continue
 					}
 					let ch = gr.chars().next().unwrap();
@@ -3392,11 +3392,7 @@ impl LineBuf {
 						continue
 					}
 					let mut buf = [0u8;4];
-					let new = if ch.is_ascii_uppercase() {
-						ch.to_ascii_lowercase().encode_utf8(&mut buf)
-					} else {
-						ch.encode_utf8(&mut buf)
-					};
+					let new = lower_one(ch).encode_utf8(&mut buf);
 					self.replace_at(i,new);
 				}
 				// Like d and y, the case operators leave the cursor at the start of what they worked on
@@ -3412,7 +3408,7 @@ impl LineBuf {
 					let Some(gr) = self.grapheme_at(i) else {
 						continue
 					};
-					if gr.len() > 1 || gr.is_empty() {
+					if gr.chars().count() != 1 {
 						continue
 					}
 					let ch = gr.chars().next().unwrap();
@@ -3420,11 +3416,7 @@ impl LineBuf {
 						continue
 					}
 					let mut buf = [0u8;4];
-					let new = if ch.is_ascii_lowercase() {
-						ch.to_ascii_uppercase().encode_utf8(&mut buf)
-					} else {
-						ch.encode_utf8(&mut buf)
-					};
+					let new = upper_one(ch).encode_utf8(&mut buf);
 					self.replace_at(i,new);
 				}
 				// Like d and y, the case operators leave the cursor at the start of what they worked on
@@ -4036,6 +4028,24 @@ impl LineBuf {
 	}
 	pub fn as_str(&self) -> &str {
 		&self.buffer // FIXME: this will have to be fixed up later
+	}
+}
+
+/// The upper-case form of a letter, as long as it is a single character (so that positions do not shift)
+fn upper_one(ch: char) -> char {
+	let mut upper = ch.to_uppercase();
+	match (upper.next(),upper.next()) {
+		(Some(one),None) => one,
+		_ => ch
+	}
+}
+
+/// The lower-case form of a letter, as long as it is a single character
+fn lower_one(ch: char) -> char {
+	let mut lower = ch.to_lowercase();
+	match (lower.next(),lower.next()) {
+		(Some(one),None) => one,
+		_ => ch
 	}
 }
 
